@@ -210,6 +210,26 @@ pub fn property() -> Property {
         |_| prop_oneof![2 => gens::text::unicode(24), 2 => gens::text::nasty(), 1 => ("[0-9]{1,3}(\\.[0-9]{1,3}){0,2}", gens::text::unicode(10)).prop_map(|(a, b)| a + &b)].boxed(),
         check_one,
     );
+    let long = RandomSub::<String>::new(
+        "long-lookalike",
+        (30_000, 600_000),
+        |_| {
+            (spelled(), gens::pick(&[0usize, 40, 65, 70, 100, 129, 200, 260, 520]), any::<u64>(), prop::bool::weighted(0.7))
+                .prop_map(|(s, min_len, pick, disguise)| {
+                    let joiner = if s.contains('+') { "." } else { "+" };
+                    gens::text::lengthen_and_disguise(&s, joiner, min_len, &["ubuntu", "22", "04", "lts", "Kernel", "6", "18", "build", "7", "sha", "abc123", "Release", "x86", "64", "musl", "k8s", "SKU", "Iso"], pick, disguise).0
+                })
+                .boxed()
+        },
+        |s, cx| {
+            cx.label_if(s.len() > 64, ">64-bytes");
+            cx.label_if(!s.is_ascii(), "disguised");
+            check_one(s, cx)?;
+            cx.nt_if(s.len() > 64);
+            Ok(())
+        },
+    )
+    .floor(0.3);
     let l2 = RandomSub::<String>::new(
         "cli-check",
         (400, 6_000),
@@ -241,12 +261,12 @@ pub fn property() -> Property {
     .shrink_iters(200);
     Property {
         id: "C09",
-        rule: "cases = candidate version strings: exhaustive short strings / suffixes of \"1.0\" over the PEP 440 alphabet plus case-folding look-alikes, every spelling of structured versions (case, separators, alternative labels, leading zeros, v prefix, explicit 0!, implicit numbers, -N post form), 1-2 symbol mutations, numbers up to 10^25, arbitrary Unicode. Oracle: hand-written backtracking matcher of the Appendix-B grammar + normaliser (cross-checked against `packaging` by tools/xcheck_oracles.py). Non-trivial = the grammar accepts the string or accepts it after deleting one character; for `spellings`: the spelling differs from the normal form; distinct = distinct strings.",
+        rule: "cases = candidate version strings: exhaustive short strings / suffixes of \"1.0\" over the PEP 440 alphabet plus case-folding look-alikes, every spelling of structured versions (case, separators, alternative labels, leading zeros, v prefix, explicit 0!, implicit numbers, -N post form), 1-2 symbol mutations, numbers up to 10^25, arbitrary Unicode; long-lookalike: valid versions padded with local segments to 65..520 bytes with one ASCII character replaced by a look-alike whose case folding or digit class maps onto ASCII (Kelvin sign, long s, dotted/dotless i, fullwidth and Arabic-Indic digits, Cyrillic letters). Oracle: hand-written backtracking matcher of the Appendix-B grammar + normaliser (cross-checked against `packaging` by tools/xcheck_oracles.py). Non-trivial = the grammar accepts the string or accepts it after deleting one character; for `spellings`: the spelling differs from the normal form; distinct = distinct strings.",
         assumptions: vec![
             "a grammar-valid string with a number above u32 may be rejected (range limit) but must never be accepted and printed as another number",
             "strings with surrounding whitespace are outside the statement (they are simply judged by the grammar: rejected)",
         ],
-        subs: vec![e1.boxed(), e2.boxed(), r0.boxed(), r1.boxed(), r2.boxed(), l2.boxed()],
+        subs: vec![e1.boxed(), e2.boxed(), r0.boxed(), r1.boxed(), r2.boxed(), long.boxed(), l2.boxed()],
         known_repro: vec![],
     }
 }
